@@ -1,7 +1,9 @@
 (* C13 — a plan's result is the in-order union of its rules' results; the default plan is
    complete.  Statements only. *)
 From GT Require Import Visitor Validate Sexp.
+From GTS Require Import SpecRules.
 From GTP Require Import PlanFacts RuleFacts.
+From GTP Require Import C13_proofs.
 
 (* validate, for every plan (any length, order, repetitions), every schema and document:
    exactly the errors each rule returns when run alone on the same input, in plan order.
@@ -34,3 +36,14 @@ Print Assumptions C13_rule_restores_context.
 Theorem C13_default_plan : NoDup default_plan /\ (forall r : rule_id, In r default_plan) /\ List.length default_plan = 24.
 Proof. split; [exact default_plan_nodup|split; [exact default_plan_complete|reflexivity]]. Qed.
 Print Assumptions C13_default_plan.
+
+(* additions to C13: codes and locations of the errors of every rule *)
+Theorem C13_codes : forall r s d e, In e (run_alone r s d) -> e_rule e = r.
+Proof. exact run_alone_codes. Qed.
+Print Assumptions C13_codes.
+
+(* each location of an error is the position of a node of the validated document *)
+Theorem C13_locations : forall r s d e p, r <> R_OverlappingFieldsCanBeMerged ->
+  In e (run_alone r s d) -> In p (e_locs e) -> In p (doc_positions d).
+Proof. exact run_alone_locations. Qed.
+Print Assumptions C13_locations.
